@@ -532,7 +532,7 @@ PyObject* py_rank_filter(PyObject* self, PyObject* args) {
     int mode;
     PyArrayObject* output;
     if (!PyArg_ParseTuple(args, "OOOii", &array, &Bc, &output, &rank, &mode) ||
-        !PyArray_Check(array) || !PyArray_Check(Bc) || !PyArray_Check(output) ||
+        !numpy::are_arrays(array, Bc, output) ||
         !PyArray_EquivTypenums(PyArray_TYPE(array), PyArray_TYPE(Bc)) ||
         PyArray_NDIM(array) != PyArray_NDIM(Bc) ||
         !PyArray_EquivTypenums(PyArray_TYPE(array), PyArray_TYPE(output)) ||
